@@ -52,6 +52,18 @@ func c04doc(rng *sx.Rng, big bool) (*docgen, *dv) {
 			cfg.set("c"+g.mark(), dStr(g.mark()))
 		}
 		st.set("plugins", dList(dMap(dkv{"docker#v1", cfg})))
+		// keys that expand onto other keys of the same Go map (which are themselves renamed):
+		// an escaped and a plain reference to one variable, and a variable whose value names another
+		for _, target := range []*dv{e, cfg, st} {
+			if rng.Chance(50) {
+				target.set("$$FOO", dStr(g.mark()))
+				target.set("$FOO", dStr(g.mark()))
+			}
+			if rng.Chance(30) {
+				target.set("${CHAIN}", dStr(g.mark()))
+				target.set("$BAR", dStr(g.mark()))
+			}
+		}
 		if s := d.get("steps"); s != nil && s.kind == 'l' {
 			s.l = append(s.l, st)
 		} else {
@@ -67,7 +79,7 @@ func init() {
 		if thorough {
 			n = 30000
 		}
-		envPairs := [][2]string{{"FOO", "vfoo"}, {"BAR", "v bar"}, {"EMPTY", ""}, {"ESC", "NEVER"}, {"ESC2", "NEVER"}}
+		envPairs := [][2]string{{"FOO", "vfoo"}, {"BAR", "v bar"}, {"EMPTY", ""}, {"ESC", "NEVER"}, {"ESC2", "NEVER"}, {"CHAIN", "$BAR"}}
 		for i := 0; i < n; i++ {
 			g, d := c04doc(rng, i%3 == 0)
 			text, form := renderDoc(d, i)
